@@ -61,6 +61,7 @@ var labelCounter uint64
 
 func TestVerifC01Transport(t *testing.T) {
 	defer uC01.Flush()
+	rig.LongOutages = true
 	start := time.Now()
 	rapid.Check(t, func(rt *rapid.T) {
 		if time.Since(start) > time.Duration(vstat.Pick(75, 900))*time.Second {
@@ -70,11 +71,13 @@ func TestVerifC01Transport(t *testing.T) {
 		label := vstat.Seed()<<32 ^ labelCounter<<8 ^ uint64(rapid.IntRange(0, 255).Draw(rt, "labelnoise"))
 		c := c01Case{S: rig.GenSession(rt, label, 8)}
 		var labels []string
-		for _, cr := range c.S.Carriers[:len(c.S.Carriers)-1] {
-			labels = append(labels, "mode="+cr.Mode)
+		for _, cr := range c.S.Carriers {
 			if cr.DialDelayMs >= 30000 {
 				labels = append(labels, "outage of 30 s or more between carriers")
 			}
+		}
+		for _, cr := range c.S.Carriers[:len(c.S.Carriers)-1] {
+			labels = append(labels, "mode="+cr.Mode)
 			if cr.CutUpAfter > 0 && cr.CutUpAfter < 400 || cr.CutDownAfter > 0 && cr.CutDownAfter < 400 {
 				labels = append(labels, "cut inside handshake/token/id")
 			}
